@@ -20,9 +20,6 @@ from bounded import typegen as G
 from bounded.typegen import Ty
 from bounded import C11_core as K
 
-_TIER = {'values': 3}
-
-
 def _work(item):
     """one type -> (n_evaluations, classes, samples, failures[])"""
     fam, ty, k = item
